@@ -33,6 +33,8 @@ import (
 
 	quic "github.com/refraction-networking/uquic"
 	u "github.com/refraction-networking/uquic/internal/verifutil"
+	"github.com/refraction-networking/uquic/qlog"
+	"github.com/refraction-networking/uquic/qlogwriter"
 	"github.com/refraction-networking/uquic/quicvarint"
 	"github.com/refraction-networking/uquic/testutils/simnet"
 	tls "github.com/refraction-networking/utls"
@@ -342,6 +344,69 @@ type rlConn struct {
 	dir  int // direction of datagrams TOWARDS this endpoint (0 = to server, 1 = to client)
 	name string
 	tp   bool // ParamsCase emitted
+	// replay of the event transitions (HistCase)
+	trace      *rlTrace
+	evIdx      int
+	prev       *quic.VerifRunLoopSnap
+	timerFired bool  // the last stop was at this connection's armed deadline
+	timerPTO   int64
+	// monitor, from the packet events since the last received packet: send times of ack-eliciting packets, the first
+	// one that is ack-eliciting by a frame other than STREAM
+	aeTimes   map[int64]bool
+	firstCtrl int64
+	sawRecv   bool
+}
+
+// rlTrace collects the packet events a connection reports to its qlog tracer, with the (virtual)
+// time at which they were recorded: the ops the model replays.
+type rlQEv struct {
+	t      int64
+	sent   bool
+	ctrl   bool // sent: carries an ack-eliciting frame other than STREAM
+	stream bool // sent: carries a STREAM frame
+}
+
+// the send sites of connection.go do not agree on what restarts the idle period: the regular 1-RTT path counts
+// STREAM frames (registerPackedShortHeaderPacket), the coalesced / PTO-probe path only looks at the other frames
+// (shortHeaderPacket.IsAckEliciting). The packet events do not tell the path, so for a STREAM-only packet the
+// op's flag is taken from what the field shows (an oracle, counted in DIST); see notes/C17.md.
+func (e rlQEv) ae(fieldAfter int64) bool { return e.ctrl || (e.stream && fieldAfter == e.t) }
+type rlTrace struct {
+	mu  sync.Mutex
+	evs []rlQEv
+}
+
+func (t *rlTrace) AddProducer() qlogwriter.Recorder { return t }
+func (t *rlTrace) SupportsSchemas(string) bool      { return true }
+func (t *rlTrace) Close() error                     { return nil }
+func (t *rlTrace) RecordEvent(e qlogwriter.Event) {
+	now := quic.VerifRunLoopSnapshotNow()
+	t.mu.Lock()
+	defer t.mu.Unlock()
+	switch ev := e.(type) {
+	case qlog.PacketReceived:
+		if ev.Header.PacketType == qlog.PacketTypeRetry || ev.Header.PacketType == qlog.PacketTypeVersionNegotiation {
+			return // not an unpacked packet: does not touch the idle state
+		}
+		t.evs = append(t.evs, rlQEv{t: now})
+	case qlog.PacketSent:
+		q := rlQEv{t: now, sent: true}
+		for _, f := range ev.Frames {
+			switch f.Frame.(type) {
+			case *qlog.AckFrame, *qlog.ConnectionCloseFrame:
+			case *qlog.StreamFrame:
+				q.stream = true
+			default:
+				q.ctrl = true
+			}
+		}
+		t.evs = append(t.evs, q)
+	}
+}
+func (t *rlTrace) since(i int) []rlQEv {
+	t.mu.Lock()
+	defer t.mu.Unlock()
+	return append([]rlQEv(nil), t.evs[i:]...)
 }
 
 func (r *faultRouter) setBlackhole(b bool) { r.mu.Lock(); r.blackhole = b; r.mu.Unlock() }
@@ -389,6 +454,15 @@ func (r *faultRouter) nextArrival(now, lat time.Duration) time.Duration {
 	return best
 }
 
+func lastRecvIdx(evs []rlQEv) int {
+	for i := len(evs) - 1; i >= 0; i-- {
+		if !evs[i].sent {
+			return i
+		}
+	}
+	return -1
+}
+
 func runOneRL(c rlCase, o *rlOut) {
 	r := u.NewRng(c.Seed)
 	_ = r
@@ -397,6 +471,9 @@ func runOneRL(c rlCase, o *rlOut) {
 			ServerConf: &quic.Config{EnableDatagrams: true, MaxIdleTimeout: c.SrvIdle, KeepAlivePeriod: c.SrvKA, HandshakeIdleTimeout: c.SrvHsI},
 			ClientConf: &quic.Config{EnableDatagrams: true, MaxIdleTimeout: c.CliIdle, KeepAlivePeriod: c.CliKA, HandshakeIdleTimeout: c.CliHsIdle},
 		}
+		traces := [2]*rlTrace{{}, {}}
+		opts.ClientConf.Tracer = func(context.Context, bool, quic.ConnectionID) qlogwriter.Trace { return traces[0] }
+		opts.ServerConf.Tracer = func(context.Context, bool, quic.ConnectionID) qlogwriter.Trace { return traces[1] }
 		if c.Mode == "hs-initial-only" {
 			// a Retry validates the client's address, so the server keeps retransmitting its
 			// (never acknowledged) Initial packets without hitting the amplification limit
@@ -499,12 +576,12 @@ func runOneRL(c rlCase, o *rlOut) {
 		live := func() []*rlConn {
 			for _, x := range quic.VerifTransportConns(e.CliTr) {
 				if conns[x] == nil {
-					conns[x] = &rlConn{c: x, dir: 1, name: "client"}
+					conns[x] = &rlConn{c: x, dir: 1, name: "client", trace: traces[0]}
 				}
 			}
 			for _, x := range quic.VerifTransportConns(e.SrvTr) {
 				if conns[x] == nil {
-					conns[x] = &rlConn{c: x, dir: 0, name: "server"}
+					conns[x] = &rlConn{c: x, dir: 0, name: "server", trace: traces[1]}
 				}
 			}
 			var out []*rlConn
@@ -521,8 +598,132 @@ func runOneRL(c rlCase, o *rlOut) {
 			return c.CliIdle
 		}
 		nSnap := map[string]int{}
+		nHist := 0
+		// histCase: the ops that happened to the connection since its previous observation point, for the model
+		// to replay from the previous snapshot; compared: the idle-timer inputs, the flags, the negotiated values
+		histCase := func(rc *rlConn, s quic.VerifRunLoopSnap) {
+			prev, fired, firedPTO := rc.prev, rc.timerFired, rc.timerPTO
+			evs := rc.trace.since(rc.evIdx)
+			rc.evIdx += len(evs)
+			// monitor (packet events only): the idle period restarts at an ack-eliciting packet sent after the last
+			// received one, and no later than the first one that is ack-eliciting whatever the send path
+			for _, ev := range evs {
+				if !ev.sent {
+					rc.aeTimes, rc.firstCtrl, rc.sawRecv = map[int64]bool{}, 0, true
+				} else if ev.ctrl || ev.stream {
+					if rc.aeTimes == nil {
+						rc.aeTimes = map[int64]bool{}
+					}
+					rc.aeTimes[ev.t] = true
+					if ev.ctrl && rc.firstCtrl == 0 {
+						rc.firstCtrl = ev.t
+					}
+				}
+			}
+			if f := s.FirstAckElicitingAft; rc.sawRecv && s.HandshakeComplete && !s.Closed {
+				switch {
+				case f != 0 && !rc.aeTimes[f]:
+					o.fail("runloop/first-ae-bogus", fmt.Sprintf("%s: firstAckElicitingPacketAfterIdleSentTime=%v, no ack-eliciting packet left then (since the last received packet)", rc.name, time.Duration(base.t(f))))
+				case rc.firstCtrl != 0 && (f == 0 || f > rc.firstCtrl):
+					o.fail("runloop/first-ae-not-first", fmt.Sprintf("%s: firstAckElicitingPacketAfterIdleSentTime=%v, but an ack-eliciting packet left at %v after the last received one", rc.name,
+						time.Duration(base.t(f)), time.Duration(base.t(rc.firstCtrl))))
+				}
+			}
+			rc.timerFired = false
+			cp := s
+			rc.prev = &cp
+			if prev == nil || prev.Closed || prev.PacingImmediate || s.PacingImmediate {
+				return
+			}
+			closed := int64(0)
+			if s.Closed {
+				ce, _, _ := quic.VerifRecordedCloseErr(rc.c)
+				switch k, _ := classifyErr(ce); k {
+				case ekIdle:
+					closed = 3
+				case ekHsTimeout:
+					closed = 2
+				default:
+					return // closed by the scenario itself
+				}
+			}
+			if rlDebug {
+				fmt.Fprintf(os.Stderr, "hist %s prev.now=%v now=%v fired=%v evs=%d closed=%d prevDeadline=%v\n", rc.name, time.Duration(base.t(prev.Now)), time.Duration(base.t(s.Now)), fired, len(evs), closed, time.Duration(base.t(prev.TimerDeadline)))
+			}
+			nRecv := 0
+			for _, ev := range evs {
+				if !ev.sent {
+					nRecv++
+				}
+			}
+			newTP := prev.PeerMaxIdleTimeout < 0 && s.PeerMaxIdleTimeout >= 0
+			newHS := !prev.HandshakeComplete && s.HandshakeComplete
+			kaFlip := !prev.KeepAlivePingSent && s.KeepAlivePingSent
+			if closed != 0 && !fired {
+				o.count("hist-skipped: closed while the driver was not watching")
+				return
+			}
+			if fired && nRecv > 0 {
+				o.count("hist-skipped: timer and packet at the same instant")
+				return
+			}
+			if len(evs) == 0 && !fired && !newTP && !newHS && !kaFlip && closed == 0 {
+				return
+			}
+			var ops []string
+			if fired {
+				ops = append(ops, u.App("OpTimer", u.Z(base.t(s.Now)), u.Z(firedPTO)))
+			}
+			kaPending := kaFlip && !fired
+			if kaPending && (newTP || newHS) {
+				o.count("hist-skipped: keep-alive and handshake progress in one batch")
+				return
+			}
+			for i, ev := range evs {
+				switch {
+				case !ev.sent:
+					t := ev.t
+					if i == lastRecvIdx(evs) && !s.HandshakeComplete && s.LastPacketReceived != t {
+						// a packet that waited for its keys is stamped with its arrival time
+						t = s.LastPacketReceived
+						o.count("hist: receive time of a queued packet taken from the field")
+					}
+					ops = append(ops, u.App("OpRecv", u.Z(base.t(t))))
+				default:
+					ae := ev.ae(s.FirstAckElicitingAft)
+					if !ev.ctrl && ev.stream {
+						o.count("hist: STREAM-only packet, idle restart taken from the field")
+					}
+					if kaPending && ae {
+						ops = append(ops, u.App("OpKeepAlive", u.Z(base.t(ev.t)), u.Z(prev.PTO)))
+						kaPending = false
+					}
+					ops = append(ops, u.App("OpSent", u.Z(base.t(ev.t)), u.B(ae)))
+				}
+			}
+			if kaPending {
+				ops = append(ops, u.App("OpKeepAlive", u.Z(base.t(s.Now)), u.Z(prev.PTO)))
+			}
+			if newTP {
+				ops = append(ops, u.App("OpTP", u.Z(s.PeerMaxIdleTimeout), u.Z(s.PeerAdvertisedIdle)))
+			}
+			if newHS {
+				ops = append(ops, "OpHsDone")
+			}
+			if fired && kaFlip && closed != 0 {
+				// the keep-alive branch comes first; the timeout is declared by the next iteration at the same instant
+				ops = append(ops, u.App("OpTimer", u.Z(base.t(s.Now)), u.Z(firedPTO)))
+			}
+			nHist++
+			if nHist > 150 {
+				return
+			}
+			o.emit(1, u.App("HistCase", snapTerm(base, *prev), u.List(ops), snapTerm(base, s), u.Z(closed)))
+			o.count(fmt.Sprintf("hist ops=%d timer=%v recv=%d closed=%d ka=%v", min(len(ops), 6), fired, min(nRecv, 2), closed, kaFlip))
+		}
 		observe := func(rc *rlConn) quic.VerifRunLoopSnap {
 			s := quic.VerifRunLoopSnapshot(rc.c)
+			histCase(rc, s)
 			if s.Closed {
 				return s
 			}
@@ -627,6 +828,9 @@ func runOneRL(c rlCase, o *rlOut) {
 						fmt.Fprintf(os.Stderr, "t=%v %s deadline=%v quiet=%v closed=%v hs=%v lastRecv=%v\n", tT, p.rc.name, time.Duration(p.s.TimerDeadline-T), e.Router.quiet(p.rc.dir, tS, tT, lat),
 							quic.VerifRunLoopSnapshot(p.rc.c).Closed, p.s.HandshakeComplete, time.Duration(base.t(p.s.LastPacketReceived)))
 					}
+					if p.s.TimerDeadline == T {
+						p.rc.timerFired, p.rc.timerPTO = true, p.s.PTO
+					}
 					if p.s.TimerDeadline != T || !e.Router.quiet(p.rc.dir, tS, tT, lat) {
 						continue
 					}
@@ -692,8 +896,9 @@ func runOneRL(c rlCase, o *rlOut) {
 				if st.N%2 == 0 {
 					cl.SendDatagram(make([]byte, min(st.N, 1000)))
 				} else if s, err := cl.OpenUniStream(); err == nil {
-					s.Write(make([]byte, st.N))
-					s.Close()
+					// (in a goroutine: a Write parks while the connection is congestion limited, and the
+					// driver must keep observing)
+					go func() { s.Write(make([]byte, st.N)); s.Close() }()
 				}
 				advance(time.Duration(st.N%7) * c.RTT / 2)
 			case "ssend":
